@@ -37,7 +37,7 @@ for p in props:
     })
 manifest = {
     "version": 1,
-    "setup_cmd": "cd lean && lake build",
+    "setup_cmd": "cd lean && lake build && lake build SymmModel.Gen.Tie",
     "notes": "Lean 4 model SymmModel (lean/) with property theorems in lean/SymmModel/Props, native driver "
              "lean/.lake/build/bin/drv, Python correspondence harness (harness/). See DESIGN.md.",
     "hooks": {
